@@ -1,0 +1,47 @@
+//go:build verif
+
+// Contracts for the CBE marshal/unmarshal wrappers (package cbe, fourth file), read as text by
+// the verification-condition generator in /verif. This file contains no code.
+//
+// No exceptional postcondition anywhere below: nothing may escape as a panic (C07). A failed
+// destination writer or source reader always ends in err != nil (C29).
+
+package cbe
+
+//@ func (*Writer).SetWriter
+//@   requires writer != nil
+//@   modifies _this.writer, _this.stringWriter
+//@   ensures _this.writer == writer && _this.stringWriter != nil
+
+//@ func (*Encoder).PrepareToEncode
+//@   requires writer != nil
+//@   modifies _this.writer.writer, _this.writer.stringWriter
+//@   ensures _this.writer.writer == writer && _this.writer.stringWriter != nil
+
+//@ func (*Marshaler).Marshal
+//@   requires _this.config != nil && !_this.config.Debug.PassThroughPanics && writer != nil && !wfailed
+//@   modifies all
+//@   ensures err == nil ==> !wfailed
+
+//@ func (*Marshaler).MarshalToDocument
+//@   requires _this.config != nil && !_this.config.Debug.PassThroughPanics && !wfailed
+//@   modifies all
+//@   ensures err == nil ==> !wfailed
+
+//@ func (*Unmarshaler).Unmarshal
+//@   requires _this.config != nil && !_this.config.Debug.PassThroughPanics && _this.decoder.config == _this.config && _this.decoder.reader.config != nil && len(_this.decoder.reader.buffer) >= 16
+//@   requires reader != nil && pos <= inLen && inLen <= 0x10000000000 && !rfailed && zeroReads < 100 && !evPanic
+//@   modifies all
+//@   ensures err == nil ==> !rfailed && pos == inLen
+
+//@ func (*Unmarshaler).UnmarshalFromDocument
+//@   requires !evPanic && _this.config != nil && !_this.config.Debug.PassThroughPanics && _this.decoder.config == _this.config && _this.decoder.reader.config != nil && len(_this.decoder.reader.buffer) >= 16
+//@   modifies all
+//@   ensures err == nil ==> !rfailed && pos == inLen
+
+// Nothing between the writer/reader and these wrappers may swallow a panic.
+//@ structural cbe-no-recover: no_recover cbe except cbe.(*Decoder).Decode$ cbe.(*Marshaler).Marshal$ cbe.(*Unmarshaler).Unmarshal$
+//@ structural iterator-no-recover: no_recover iterator
+//@ structural cbe-writer-calls: only_callers (io.Writer).Write in cbe: cbe.(*Writer).writeBytes
+//@ structural cbe-stringwriter-calls: only_callers (io.StringWriter).WriteString in cbe: cbe.(*Writer).WriteString
+//@ structural cbe-reader-calls: only_callers (io.Reader).Read in cbe: cbe.(*normalizingReader).Read
